@@ -2,7 +2,8 @@
    Property theorems only: each is closed by `exact <lemma>` and followed by Print Assumptions.
    Model: Model/WatchSys.v (ring.go, watcherhub.go, watch.go, backend.go:208-273), every theorem about
    `run pa ls (init l c0)` quantifies over ALL label lists ls (interleavings of sequencer take / cache insert /
-   broadcast, hub item, spawned deleter, ctx deleter, subscribe / cache read / spawn, processEvents step,
+   broadcast, hub item (incl. the synchronous deletion of slow subscribers), ctx deleter, subscribe / cache read /
+   spawn, processEvents step,
    client step, cancel), all channel capacities and batch sizes pa, all cache sizes l >= 1, all initial
    revisions c0; the producer sequence is whatever slots the LSeqTake labels carry (only slot committed+1 is
    taken, failed slots produce no event). *)
@@ -21,49 +22,30 @@ Print Assumptions C05_ring.
 
 (* ---------- the stream ---------- *)
 
-(* full-strength statement of the prefix property *)
-Definition C05_prefix_statement : Prop :=
-  forall pa l c0 ls i w, 0 < l ->
-    nth_error (s_ws (run pa ls (init l c0))) i = Some w -> accepted w = true ->
-    is_prefix (concat (w_got w)) (ideal (w_S w) (w_P w) (w_base w) (s_cached (run pa ls (init l c0)))).
-
-(* the faithful model refutes it (finding C05-F1): a batch is dropped for a full buffer, the spawned deleter has
-   not run yet, the client takes a batch, the next batch is accepted: revisions 1 and 3 delivered, 2 skipped *)
-Definition c05_we (r : N) : wevent := mkWe r 0 true VCreate [47; 97] [r].
-Definition c05_prod (r : N) : list label := [LSeqTake (c05_we r); LSeqCache; LSeqSend].
-Definition c05_gap_run : list label :=
-  [LWatchSub 0 []; LWatchSpawn 0] ++ c05_prod 1 ++ c05_prod 2 ++ c05_prod 3 ++
-  [LHubItem []; LHubItem []; LProc 0; LProc 0; LHubItem []; LProc 0; LConsume 0; LProc 0; LConsume 0;
-   LHubDelete 0; LProc 0; LConsume 0].
-Definition c05_small : params := mkParams 1 1 1 10.
-
-Theorem C05_prefix_refuted : ~ C05_prefix_statement.
-Proof.
-  intros H.
-  pose (s := run c05_small c05_gap_run (init 2 0)).
-  assert (Hw : exists w, nth_error (s_ws s) 0 = Some w) by (vm_compute; eexists; reflexivity).
-  destruct Hw as [w Hw].
-  assert (Hacc : accepted w = true) by (vm_compute in Hw; injection Hw as <-; reflexivity).
-  specialize (H c05_small 2 0 c05_gap_run 0%nat w ltac:(reflexivity) Hw Hacc).
-  apply is_prefix_prefixb in H. vm_compute in Hw. injection Hw as <-. vm_compute in H. discriminate.
-Qed.
-Print Assumptions C05_prefix_refuted.
-
-(* the property holds for every watcher that never accepted a batch after a dropped one ... *)
-Theorem C05_prefix_nogap : forall pa l c0 ls i w, 0 < l ->
-  nth_error (s_ws (run pa ls (init l c0))) i = Some w -> accepted w = true -> w_gap w = false ->
-  is_prefix (concat (w_got w)) (ideal (w_S w) (w_P w) (w_base w) (s_cached (run pa ls (init l c0)))).
-Proof. exact prefix_nogap. Qed.
-Print Assumptions C05_prefix_nogap.
-
-(* ... in particular for every run in which the spawned deleter runs before the hub's next item (what the
-   repair — delete slow subscribers synchronously — enforces) *)
-Theorem C05_prefix_except_async_delete : forall pa l c0 ls i w, 0 < l ->
-  sync_delete_run pa ls (init l c0) ->
+(* the prefix property at full strength: for every interleaving and every accepted watcher, the concatenation of
+   the batches its client has received is a prefix of ideal S P sigma — strictly increasing, exactly once each,
+   none skipped, right kind/key/value/previous revision; for S = 0: the events fanned out after the subscription *)
+Theorem C05_prefix : forall pa l c0 ls i w, 0 < l ->
   nth_error (s_ws (run pa ls (init l c0))) i = Some w -> accepted w = true ->
   is_prefix (concat (w_got w)) (ideal (w_S w) (w_P w) (w_base w) (s_cached (run pa ls (init l c0)))).
-Proof. exact prefix_except_async_delete. Qed.
-Print Assumptions C05_prefix_except_async_delete.
+Proof. exact prefix_full. Qed.
+Print Assumptions C05_prefix.
+
+(* what makes it true: a subscriber whose buffer was found full is closed and unregistered within the same hub
+   step, so it is never offered another batch (fix of C05-F1: no asynchronous `go DeleteWatcher`) *)
+Theorem C05_dropped_is_closed : forall pa l c0 ls i w, 0 < l ->
+  nth_error (s_ws (run pa ls (init l c0))) i = Some w -> w_dropped w = true ->
+  w_reg w = false /\ c_closed (w_sub w) = true.
+Proof. exact dropped_is_closed. Qed.
+Print Assumptions C05_dropped_is_closed.
+
+Theorem C05_never_accepts_after_drop : forall pa l c0 ls, 0 < l -> no_gap (run pa ls (init l c0)).
+Proof. exact never_accepts_after_drop. Qed.
+Print Assumptions C05_never_accepts_after_drop.
+
+Definition c05_we (r : N) : wevent := mkWe r 0 true VCreate [47; 97] [r].
+Definition c05_prod (r : N) : list label := [LSeqTake (c05_we r); LSeqCache; LSeqSend].
+Definition c05_small : params := mkParams 1 1 1 10.
 
 (* open result channel and nothing enabled for producer, hub, processEvents, client: everything was delivered *)
 Theorem C05_complete : forall pa l c0 ls i w, 0 < l ->
@@ -112,7 +94,7 @@ Proof. exact c05_oracle_sound_ring. Qed.
 Print Assumptions C05_oracle_sound_ring.
 
 Theorem C05_oracle_prefix_test_partial : forall pa l c0 ls i w, 0 < l ->
-  nth_error (s_ws (run pa ls (init l c0))) i = Some w -> accepted w = true -> w_gap w = false ->
+  nth_error (s_ws (run pa ls (init l c0))) i = Some w -> accepted w = true ->
   prefixb (concat (w_got w)) (ideal (w_S w) (w_P w) (w_base w) (s_cached (run pa ls (init l c0)))) = true.
 Proof. exact model_passes_prefix_test. Qed.
 Print Assumptions C05_oracle_prefix_test_partial.
@@ -126,7 +108,7 @@ Example C05_ring_wrapped :
 Proof. vm_compute. reflexivity. Qed.
 
 (* a settled, accepted watcher with replay: S = 2 inside a window of 2, prefix "/a", three events, one catch-up
-   batch and one live batch; the hypotheses of C05_complete / C05_refusal_sound / C05_prefix_nogap hold *)
+   batch and one live batch; the hypotheses of C05_complete / C05_refusal_sound / C05_prefix hold *)
 Definition c05_ok_run : list label :=
   c05_prod 1 ++ [LHubItem []] ++ c05_prod 2 ++ [LHubItem []; LWatchSub 2 [47]; LWatchRead 0] ++
   c05_prod 3 ++ [LWatchSpawn 0; LHubItem []; LProc 0; LProc 0; LConsume 0; LConsume 0].
@@ -135,17 +117,41 @@ Example C05_complete_inhabited :
   match nth_error (s_ws s) 0 with
   | Some w => accepted w = true /\ w_gap w = false /\ w_S w <> 0 /\
               map e_rev (concat (w_got w)) = [2; 3] /\ map e_rev (w_snap w) = [2] /\
-              s_cur s = None /\ s_pending s = [] /\ s_wchan s = [] /\ w_phase w = PhRun /\ w_delpend w = 0%nat /\
+              s_cur s = None /\ s_pending s = [] /\ s_wchan s = [] /\ w_phase w = PhRun /\
               c_buf (w_sub w) = [] /\ c_closed (w_sub w) = false /\ w_hold w = None /\
               c_buf (w_out w) = [] /\ c_closed (w_out w) = false
   | None => False
   end.
 Proof. vm_compute. repeat split; discriminate. Qed.
 
-(* the gap run is not a sync-delete run, and a run with the deleter in time is *)
-Example C05_sync_run_inhabited :
-  no_deleter_pending (run c05_small ([LWatchSub 0 []; LWatchSpawn 0] ++ c05_prod 1 ++ c05_prod 2 ++ [LHubItem []; LHubItem []; LHubDelete 0]) (init 2 0)).
-Proof. vm_compute. repeat constructor. Qed.
+(* the overflow run on the repaired hub (capacities 1/1/1): batch 2 finds the buffer full, the subscriber is
+   closed at once, batch 3 is not offered to it: the client receives revision 1 and then the close *)
+Definition c05_overflow_run : list label :=
+  [LWatchSub 0 []; LWatchSpawn 0] ++ c05_prod 1 ++ c05_prod 2 ++ c05_prod 3 ++
+  [LHubItem []; LHubItem []; LProc 0; LProc 0; LHubItem []; LProc 0; LConsume 0; LProc 0; LConsume 0].
+Example C05_overflow_closes :
+  match nth_error (s_ws (run c05_small c05_overflow_run (init 2 0))) 0 with
+  | Some w => w_dropped w = true /\ map e_rev (concat (w_got w)) = [1] /\ w_seen_close w = true /\ w_gap w = false
+  | None => False
+  end.
+Proof. vm_compute. repeat split. Qed.
+
+(* the hub as it was before the repair (asynchronous deleter, hub_item_async / late_delete): the same schedule with
+   the deleter running late lets the stream continue past the dropped batch — revisions 1 and 3 delivered, 2
+   skipped, then the close. This was finding C05-F1; the driver keeps its witness in the fixed corpus. *)
+Example C05_async_delete_was_wrong :
+  let s0 := run c05_small ([LWatchSub 0 []; LWatchSpawn 0] ++ c05_prod 1 ++ c05_prod 2 ++ c05_prod 3) (init 2 0) in
+  let s1 := hub_item_async c05_small (hub_item_async c05_small s0) in           (* 1 accepted, 2 dropped *)
+  let s2 := run c05_small [LProc 0; LProc 0] s1 in                                (* the client side makes room *)
+  let s3 := hub_item_async c05_small s2 in                                        (* 3 accepted after the drop *)
+  let s4 := run c05_small [LProc 0; LConsume 0; LProc 0; LConsume 0] s3 in
+  let s5 := run c05_small [LProc 0; LConsume 0] (late_delete 0 s4) in
+  match nth_error (s_ws s5) 0 with
+  | Some w => accepted w = true /\ w_gap w = true /\ map e_rev (concat (w_got w)) = [1; 3] /\ w_seen_close w = true /\
+              prefixb (concat (w_got w)) (ideal (w_S w) (w_P w) (w_base w) (s_cached s5)) = false
+  | None => False
+  end.
+Proof. vm_compute. repeat split. Qed.
 
 (* the parameter hypothesis of C05_catchup_fits is needed: out = 4, batch = 1, five events -> blocked for ever *)
 Example C05_catchup_hypothesis_needed :
